@@ -55,3 +55,11 @@ Theorem C02_binary_expression_refines : forall (P: Type) f lhs0 s t s',
               (forall o s1, peek P s' = Ok (Some o, s1) -> prec_of (tk o) = None).
 Proof. exact binary_expression_refines. Qed.
 Print Assumptions C02_binary_expression_refines.
+
+(* completeness: every operator/operand sequence for which the stratified grammar has a tree is accepted
+   by the two loops, with exactly that tree - so precedence climbing computes the grammar's (unique) tree *)
+From PV Require Import ClimbComplete.
+Theorem C02_climb_iff_grammar : forall (atom op: Type) (prec: op -> nat) a0 l t,
+  (exists fuel, climb atom op prec fuel 0 (Leaf atom op a0) l = Some (t, [])) <-> D atom op prec 0 (Leaf atom op a0) l t.
+Proof. exact climb_iff_grammar. Qed.
+Print Assumptions C02_climb_iff_grammar.
